@@ -374,3 +374,29 @@ func VerifH_C03_renameRotation() {
 	vf.Assert(ok && got == saved, "rename-while-running-keeps-the-offsets")
 	vf.Reach("rotation-checked")
 }
+
+// C06.H5: offsets_op=tail positions a file found at the start one byte before its end and tells the worker
+// to skip to the next line start (the position may lie inside a line); only an empty file is read from 0
+// with nothing skipped. Sizes 0, 1, 2 and larger.
+func VerifH_C06_tailStart() {
+	size := []int64{0, 1, 2, 5, 1 << 20}[vf.Choose("file-size", 5)]
+	verifFDSize = size
+	f := new(os.File)
+	verifFDs = map[*os.File]*verifFD{f: {}}
+	jp := verifNewProvider()
+	job := &Job{file: f, sourceID: 1, filename: "f", inode: 7, mu: &sync.Mutex{}}
+	jp.initJobOffset(offsetsOpTail, job)
+	pos, skip := verifFDs[f].pos, job.shouldSkip.Load()
+	if vf.Param("twin", 0) == 1 {
+		vf.Assert(skip == (size == 0), "twin")
+		return
+	}
+	if size == 0 {
+		vf.Assert(pos == 0 && !skip, "empty-file-is-read-from-the-start-nothing-skipped")
+	} else {
+		vf.Assert(pos == size-1, "tail-starts-one-byte-before-the-end")
+		vf.Assert(skip, "tail-skips-to-the-next-line-start")
+		vf.Assert(job.curOffset == size-1, "job-offset-follows-the-position")
+	}
+	vf.Reach("tail-checked")
+}
